@@ -233,6 +233,54 @@ theorem profile_tracks_program (oc : OpCond ℝ) (dt : ℝ) (h : WF oc dt) (k : 
       have := h.ttot_nonneg
       nlinarith
 
+/-- the segment list of a concatenated hold list splits at the junction -/
+theorem segments_append (rate dt Ts : ℝ) (pre post : List (Hold ℝ)) :
+    segments rate dt Ts (pre ++ post)
+      = segments rate dt Ts pre ++ segments rate dt (lastTemp Ts pre) post := by
+  induction pre generalizing Ts with
+  | nil => simp [segments, lastTemp]
+  | cons a t ih => simp [segments, lastTemp, ih, List.append_assoc]
+
+/-- **dwell, on the profile itself**: whenever the program's hold list (user holds followed by
+the final plateau) splits as `pre ++ h :: post`, the sampled profile contains — right after the
+ramp down to `h.temp` — a plateau of `c = holdCount …` consecutive samples equal to `h.temp`
+(as far as the process lasts: indices below `nSteps`), and `c` matches the hold's duration to
+within one step: `d − dt < c·dt < d + dt`. -/
+theorem profile_dwell (oc : OpCond ℝ) (dt : ℝ) (hdt : 0 < dt)
+    (pre post : List (Hold ℝ)) (h : Hold ℝ) (hsplit : allHolds oc = pre ++ h :: post)
+    (hd : 0 ≤ h.duration) :
+    let Ts := lastTemp oc.start pre
+    let off := (segments oc.rate dt oc.start pre).length + arangeLen ((Ts - h.temp) / oc.rate) dt
+    let c := holdCount Ts h.temp oc.rate h.duration dt
+    (∀ k, k < c → off + k < nSteps oc.t_tot dt → (profile oc dt)[off + k]? = some h.temp) ∧
+    h.duration - dt < (c : ℝ) * dt ∧ (c : ℝ) * dt < h.duration + dt := by
+  intro Ts off c
+  refine ⟨?_, holdCount_dwell Ts h.temp oc.rate h.duration dt hdt hd⟩
+  intro k hk hn
+  have hseg : segments oc.rate dt oc.start (allHolds oc)
+      = segments oc.rate dt oc.start pre ++
+        (simpleCool Ts h.temp oc.rate dt ++
+          (List.replicate c h.temp ++ segments oc.rate dt h.temp post)) := by
+    rw [hsplit, segments_append]; rfl
+  have hlenS : (simpleCool Ts h.temp oc.rate dt).length = arangeLen ((Ts - h.temp) / oc.rate) dt :=
+    length_simpleCool _ _ _ _
+  have hget : (segments oc.rate dt oc.start (allHolds oc))[off + k]? = some h.temp := by
+    rw [hseg]
+    rw [List.getElem?_append_right (by simp only [off]; omega)]
+    rw [List.getElem?_append_right (by simp only [off]; rw [hlenS]; omega)]
+    rw [List.getElem?_append_left (by simp only [off, List.length_replicate]; rw [hlenS]; omega)]
+    rw [List.getElem?_replicate, if_pos (by simp only [off]; rw [hlenS]; omega)]
+  have hlt : off + k < (segments oc.rate dt oc.start (allHolds oc)).length := by
+    by_contra hcon
+    rw [List.getElem?_eq_none (by omega)] at hget
+    exact absurd hget (by simp)
+  show (profile oc dt)[off + k]? = some h.temp
+  unfold profile
+  simp only []
+  rw [List.getElem?_append_left (by simp [List.length_take]; omega)]
+  rw [List.getElem?_take_of_lt hn]
+  exact hget
+
 /-! ### order independence -/
 
 theorem holdGe_iff (a b : Hold ℝ) :
